@@ -47,6 +47,9 @@ def gen_case(rng, tier, avoid):
         if rng.random() < 0.2:
             cfg['path_kind'] = 'Path'
         configs.append(cfg)
+    if tier == 'thorough' and rng.random() < 1 / 2500.0:
+        # directed: the documented default output chunk (2**32: two 4 GiB buffers are allocated and zeroed, 20-60 s)
+        configs = [{'ics': None, 'ocs': ['default', 0]}]
     params = {'configs': configs, 'torn': [[rng.random(), rng.random()] for _ in range(rng.choice([0, 1, 2]))]}
     if rng.random() < 0.3:
         params['crash'] = [rng.random(), rng.choice([None, None, rng.random()])]
@@ -133,8 +136,13 @@ def check_case(case, ex):
             last = ev
 
     for cfg in P['configs']:
-        ocs = C.resolve_ocs(cfg['ocs'], mrl, len(R))
-        kw = {'output_chunk_size': ocs}
+        if cfg['ocs'][0] == 'default':
+            ocs, kw = None, {'default_ocs': True}
+            case = dict(case, scenario=dict(case['scenario'], env=dict(case['scenario'].get('env') or {}, run_cap_s=300)))
+            bump(pr, 'default_output_chunk_4GiB')
+        else:
+            ocs = C.resolve_ocs(cfg['ocs'], mrl, len(R))
+            kw = {'output_chunk_size': ocs}
         if cfg.get('ics') is not None:
             kw['input_chunk_size'] = cfg['ics']
         if 'prior' in cfg:
